@@ -107,6 +107,10 @@ def _gen_one(rng):
         kind = k0 if same else rng.choice(kinds)
         d = C.desc_from_fields(rng, f, kind)
         recs.append(d)
+    if rng.random() < 0.06:
+        # wide scheme-less records: the key columns sit right of column index 256
+        w = rng.choice([255, 256, 257, 258, 300])
+        recs = [(dict(d, pad=w) if d["kind"] == "untyped" else d) for d in recs]
     if stream == "boundary" and rng.random() < 0.15:
         recs[rng.randrange(n)] = {"kind": "untyped", "cols": []}     # a record with no column
     if stream == "adv" and rng.random() < 0.3:
@@ -164,6 +168,14 @@ def corpus():
               warm=["B", ["chr10", "chr2", "chr1"]]),
         _case("corpus", "C", ["chr1", "chr2"], [_u(chrom="chr2", start="1", end="1"), _u(chrom="chr10", start="1", end="1")],
               warm=["C", ["chr10", "chr2", "chr1"]]),
+        # key columns beyond column index 256 of a scheme-less record are still found
+        _case("corpus", "B", None, [dict(_u(tumor="10", normal="8", chrom="1", start="9", end="9"), pad=258),
+                                     dict(_u(tumor="9", normal="8", chrom="1", start="10", end="10"), pad=258),
+                                     _t(tumor="10", normal="8", chrom="1", start="9", end="9")]),
+        # digit-only barcodes are text under the typed scheme too ("10" < "9", "007" != "7")
+        _case("corpus", "B", None, [_t(tumor="9", chrom="1", start="5", end="5"), _t(tumor="10", chrom="1", start="5", end="5"),
+                                     _t(tumor="T1", chrom="1", start="5", end="5")]),
+        _case("corpus", "B", None, [_t(tumor="007", chrom="1", start="5", end="5"), _u(tumor="7", chrom="1", start="5", end="5")]),
         # contigs read from a .fai file behave like contigs=[first column]
         _case("corpus", "B", ["chr1", "chr2", "chr10"], [_u(tumor="T1", normal="N1", chrom="chr10", start="1", end="1"),
                                                         _u(tumor="T1", normal="N1", chrom="chr2", start="1", end="1"),
